@@ -40,24 +40,44 @@ def words (l : Line) : List Line :=
 /-- The escapes the (assumed) Sphinx assembler accepts in string and character literals:
 `\\ \" \' \n \r \xHH`; anything else after a backslash, a raw quote of the enclosing kind, or a
 byte outside printable ASCII is rejected. -/
-def unescape (quote : Char) : Line → Except String (List Nat)
-  | [] => .ok []
-  | '\\' :: 'x' :: h1 :: h2 :: rest =>
-    match hexVal h1, hexVal h2 with
-    | some a, some b => do let r ← unescape quote rest; pure ((16 * a + b) :: r)
-    | _, _ => .error "bad \\x escape"
-  | '\\' :: d :: rest =>
-    let v : Option Nat := match d with
-      | '\\' => some 0x5c | '"' => some 0x22 | '\'' => some 0x27 | 'n' => some 10 | 'r' => some 13
-      | _ => none
-    match v with
-    | some b => do let r ← unescape quote rest; pure (b :: r)
-    | none => .error s!"bad escape \\{d}"
-  | ['\\'] => .error "dangling backslash"
-  | c :: rest =>
-    if c == quote then .error "raw quote inside literal"
+def simpleEscape (d : Char) : Option Nat :=
+  if d == '\\' then some 0x5c else if d == '"' then some 0x22 else if d == '\'' then some 0x27
+  else if d == 'n' then some 10 else if d == 'r' then some 13 else none
+
+/-- decode the first unit of a literal body; returns its value and the remaining text -/
+def unescapeStep (quote : Char) (l : Line) : Except String (Nat × Line) :=
+  match l with
+  | [] => .error "empty"
+  | c :: t =>
+    if c == '\\' then
+      match t with
+      | [] => .error "dangling backslash"
+      | d :: t' =>
+        if d == 'x' then
+          match t' with
+          | h1 :: h2 :: rest =>
+            match hexVal h1, hexVal h2 with
+            | some a, some b => .ok (16 * a + b, rest)
+            | _, _ => .error "bad \\x escape"
+          | _ => .error "bad \\x escape"
+        else
+          match simpleEscape d with
+          | some b => .ok (b, t')
+          | none => .error s!"bad escape \\{d}"
+    else if c == quote then .error "raw quote inside literal"
     else if c.toNat < 0x20 || c.toNat > 0x7e then .error s!"unprintable byte {c.toNat} in literal"
-    else do let r ← unescape quote rest; pure (c.toNat :: r)
+    else .ok (c.toNat, t)
+
+/-- decode a literal body unit by unit (`fuel` ≥ its length always suffices) -/
+def unescapeFuel (quote : Char) : Nat → Line → Except String (List Nat)
+  | _, [] => .ok []
+  | 0, _ => .error "unescape fuel"
+  | n + 1, l => do
+    let (v, rest) ← unescapeStep quote l
+    let r ← unescapeFuel quote n rest
+    pure (v :: r)
+
+def unescape (quote : Char) (l : Line) : Except String (List Nat) := unescapeFuel quote l.length l
 
 /-! ### integer expressions -/
 inductive Tok | num (v : Int) | op (c : Char)
